@@ -19,6 +19,11 @@ def lit_num(rnd, lo=-2, hi=6):
 def scalar_value(rnd):
     """values that are STORED into containers: never a container variable (no cycles, bounded nesting)"""
     r = rnd.random()
+    if r < 0.07:
+        # values that Python confuses and BareScript does not (true / 1, false / 0, "1"), and integral numbers held as host
+        # ints (stringLength / arrayLength results) next to the float literals
+        return rnd.choice([J.var('true'), J.var('false'), J.num(1), J.num(0), J.s('1'), J.call('stringLength', J.s('a')),
+                           J.call('arrayLength', J.call('arrayNew')), J.call('stringLength', J.s('ab'))])
     if r < 0.35:
         return lit_num(rnd)
     if r < 0.6:
@@ -57,12 +62,14 @@ def arg_for(kind, rnd):
         return lit_num(rnd)
     if kind == 'key':
         return J.s(rnd.choice(['k', 'kk', 'z', '']))
+    if kind == 'needle':
+        return scalar_value(rnd) if rnd.random() < 0.8 else any_value(rnd)
     return any_value(rnd)
 
 
 SIGS = {
     'arrayCopy': ['array'], 'arrayDelete': ['array', 'index'], 'arrayExtend': ['array', 'array'], 'arrayGet': ['array', 'index'],
-    'arrayIndexOf': ['array', 'any', '?index'], 'arrayJoin': ['array', 'string'], 'arrayLastIndexOf': ['array', 'any', '?index'],
+    'arrayIndexOf': ['array', 'needle', '?index'], 'arrayJoin': ['array', 'string'], 'arrayLastIndexOf': ['array', 'needle', '?index'],
     'arrayLength': ['array'], 'arrayNew': ['*scalar'], 'arrayNewSize': ['?index', '?scalar'], 'arrayPop': ['array'],
     'arrayPush': ['array', '*scalar'], 'arraySet': ['array', 'index', 'scalar'], 'arrayShift': ['array'],
     'arraySlice': ['array', '?index', '?index'], 'arraySort': ['array'],
@@ -114,6 +121,7 @@ def snapshot():
 
 
 def history(rnd, length, names=None):
+    focus = names
     names = names or sorted(SIGS)
     st = [
         {'k': 'expr', 'name': 'a1', 'e': J.call('arrayNew', J.num(1), J.num(2), J.num(3))},
@@ -126,6 +134,10 @@ def history(rnd, length, names=None):
         {'k': 'expr', 'name': 'x', 'e': J.var('null')},
         snapshot(),
     ]
+    if rnd.random() < (0.75 if focus and set(focus) <= {'arrayIndexOf', 'arrayLastIndexOf', 'arraySort', 'systemCompare', 'systemIs'} else 0.3):
+        # an array of confusable values to search / sort / slice
+        st[0] = {'k': 'expr', 'name': 'a1', 'e': J.call('arrayNew', *rnd.sample(
+            [J.var('true'), J.num(1), J.var('false'), J.num(0), J.s('1'), J.var('null'), J.call('stringLength', J.s('a')), J.num(2), J.s('')], 5))}
     for _ in range(length):
         if rnd.random() < 0.12:
             # freshness probe: the result of a call is mutated, the same call is made again - it must not see the mutation
